@@ -365,6 +365,36 @@ def ffi_flow():
                 fail('a stale / unknown / wrong-typed handle crashed the process', c, dict(signal=r[1]))
             elif r[1] == 0:
                 fail('a stale / unknown / wrong-typed handle in an otherwise valid call was accepted (returned Success)', c, dict(rc=0))
+    # two credential entries and three referents: the prove list is a flat list the caller may write in ANY order (attributes
+    # first, second credential first, ...): every permutation must yield a presentation that verifies
+    import itertools
+    offer_b = H(); chk(fn('anoncreds_create_credential_offer', [C.c_char_p, C.c_char_p, H, C.POINTER(H)])(b'did:web:ffi/schema', b'did:web:ffi/cd', kcp, C.byref(offer_b)), 'create_credential_offer (2)')
+    req_b, meta_b = H(), H()
+    chk(fn('anoncreds_create_credential_request', [C.c_char_p, C.c_char_p, H, C.c_char_p, C.c_char_p, H, C.POINTER(H), C.POINTER(H)])(
+        b'entropy', None, cd, secret, b'ls', offer_b, C.byref(req_b), C.byref(meta_b)), 'create_credential_request (2)')
+    raws_b, kb = strlist(['Bob', '31'])
+    cred_b = H(); chk(fn('anoncreds_create_credential', [H, H, H, H, FfiList, FfiList, FfiList, C.c_void_p, C.POINTER(H)])(
+        cd, cdp, offer_b, req_b, names, raws_b, FfiList(0, None), None, C.byref(cred_b)), 'create_credential (2)')
+    cred_b2 = H(); chk(fn('anoncreds_process_credential', [H, H, C.c_char_p, H, H, C.POINTER(H)])(cred_b, meta_b, secret, cd, 0, C.byref(cred_b2)), 'process_credential (2)')
+    req2j = {"nonce": nonce.value.decode(), "name": "r", "version": "1.0", "requested_attributes": {"a1": {"name": "name"}, "a2": {"name": "name"}, "u2": {"name": "age"}},
+             "requested_predicates": {"p1": {"name": "age", "p_type": ">=", "p_value": 18}}}
+    rc, prh2 = from_json('presentation_request', req2j); chk(rc, 'presentation_request_from_json (2)')
+    ent2 = (CredEntry * 2)(CredEntry(cred2.value, -1, 0), CredEntry(cred_b2.value, -1, 0))
+    items = [(0, b'a1', 0, 1), (1, b'a2', 0, 1), (0, b'p1', 1, 0), (1, b'u2', 0, 0)]
+    for perm in itertools.permutations(items):
+        pv = (CredProve * 4)(*[CredProve(*it) for it in perm])
+        p2 = H()
+        rc = cp(prh2, FfiList(2, C.cast(ent2, C.c_void_p)), FfiList(4, C.cast(pv, C.c_void_p)), FfiList(0, None), FfiList(0, None), secret, sl, sids, cl, cids, C.byref(p2))
+        cases += 1; count('c17:prove-list-order')
+        c = dict(kind='prove-list-order', entry='anoncreds_create_presentation', order=[[it[0], it[1].decode()] for it in perm])
+        if rc != 0:
+            fail('create_presentation through the C ABI refuses a prove list written in another order', c, dict(rc=rc, error=current_error()))
+            continue
+        r2 = C.c_int8(-1)
+        rcv = verify_legacy(p2, prh2, sl, sids, cl, cids, FfiList(0, None), FfiList(0, None), FfiList(0, None), FfiList(0, None), C.byref(r2))
+        if rcv != 0 or r2.value != 1:
+            fail('a presentation made through the C ABI from a prove list in another order does not verify (the native API takes a map: order cannot matter)', c, dict(rc=rcv, result=r2.value, error=current_error() if rcv else None))
+        obj_free(p2.value)
     res = C.c_int8(-1)
     chk(verify_legacy(pres, prh, sl, sids, cl, cids, FfiList(0, None), FfiList(0, None), FfiList(0, None), FfiList(0, None), C.byref(res)), 'verify_presentation')
     out = dict(format='legacy', request=reqj, presentation=json.loads(to_json(pres.value)),
